@@ -18,7 +18,15 @@ CHECKS = {
             "RAW values: first differing objective decides, a negative weight makes the smaller value better), gt_single_neg, values_roundtrip, dominates_iff(+pointwise), "
             "dominates_imp_gt, compare_order_invariant (every operator and dominates see only the ORDER of the weighted values: invariant under any strictly increasing "
             "re-labelling), valid_history, cvalid_history and cdel_clears for constrained fitnesses, constrained_table/both/neither) hold for every linearly ordered "
-            "field, every tuple length and every index list; model Core/Fitness.lean is diffed against deap.base on an exhaustive small domain, random dyadic inputs, "
+            "field, every tuple length and every index list. Per-class state is explicit (Core/FitClass.lean: a fitness class = its own `weights` entry + its parent, "
+            "Python's attribute lookup along the MRO, a world of classes and objects with caller histories): resolve_own / resolve_inherited / resolve_stable (a class "
+            "resolves to its own declaration whatever its ancestors declare, else to its parent's; later classes change nothing), class_isolation (the result of every "
+            "operation on fitness objects depends only on each object's own weighted values and the weights its OWN class resolves to, after arbitrary histories on "
+            "other classes and instances - no per-class cache can go stale), readback_hierarchy / readback_resolved (values read back unchanged for +-1 weights in any "
+            "hierarchy), init_valid_iff / init_falsy_array (the constructor tests len(values) > 0 for every container kind: a falsy non-empty numpy array is assigned), "
+            "str_eq_values, eq_imp_hash_eq (equal fitnesses hash equal for every tuple hash). Model Core/Fitness.lean + Core/FitClass.lean is diffed against deap.base on "
+            "families of related fitness classes created afresh per case (every order of first use over chains of 2-3 classes derived by class / creator.create, weights "
+            "overridden or inherited, and random histories new class / new object / assign / read-back / str / compare / dominates / clone / delete), an exhaustive small domain, random dyadic inputs, "
             "near-ties a few ulps apart, integers beyond 2**53 and exact rationals (integer weights), finite weights x finite values whose products saturate at +-inf "
             "(ties at infinity; the model sees a strictly increasing image), values handed over in tuples/lists/deques/float64, float32 and int64 arrays through the "
             "constructor, the keyword and the property, constrained histories (assign / set violation record incl. numeric records / delete in every order), and the statement itself "
